@@ -93,6 +93,9 @@ def run(ctx) -> None:
         ("C01.R5-partition", "the producers/subjects filters partition the active predecessors as stated"),
         ("C01.R6-single-writer", "comp_done / comp_staged_in are written only by the frozen functions; node_is_active reads comp_done"),
         ("C01.R7-lock", "scheduling decisions and finishedCheck state inspection run under comp_lock"),
+        ("C01.R9-final-states-not-overwritten", "the controller assigns a final controllerState directly (bypassing finish()) only for the stages "
+                                                "a restart skipped: the loop is bounded by the stage the run started from, an attribute written "
+                                                "only on the first initialise"),
         ("C01.R8-launch-order", "in finalize_submit_components run() is reached only for components that were staged in "
                                 "(member of staged_in), and stageIn precedes comp_staged_in.add"),
     ]:
@@ -273,6 +276,25 @@ def run(ctx) -> None:
                "'return True' can be reached without checking that every active subject is in comp_staged_in",
                construct="return True <- all subjects staged in")
 
+        # a subject that is being finished (put down without having been launched, or on its way to a final state) is not "launched
+        # and running": on the finishCalled side the function answers False
+        fin_tests = match.test_nodes(c2, lambda t: match.polarity(t, lambda e: isinstance(e, ast.Attribute) and e.attr == "finishCalled"))
+        ok3 = bool(fin_tests) and bool(for_nodes)
+        if ok3:
+            for (tn, lab) in fin_tests:
+                succ = [m for (m, l2) in tn.succ if l2 == lab]
+                if rt.id in c2.reach(succ, blocked=for_nodes):
+                    ok3 = False
+                if not any(tn.ast is x for f in for_nodes for x in ast.walk(f.ast)):
+                    ok3 = False
+        ctx.ob("C01.R4-deps-satisfied", rt.ast, ok3,
+               "a subject whose finish() was called does not satisfy the dependency until it is done" if ok3 else
+               "_input_dependencies_satisfied counts a subject as launched as soon as it is in comp_staged_in, also when finish() was already "
+               "called on it: _fake_finish_with_state adds a never-launched component to comp_staged_in and its final state arrives "
+               "asynchronously, so for a few scheduler passes a repeating observer of a subject that was put down (its own producer shut down) "
+               "has no pending dependency and no vetoing producer, and is launched",
+               construct="return True <- no subject is being finished")
+
     # ---------------- R5 ---------------------------------------------------------------------------------
     gap = ctl.func("Controller._comp_get_active_predecessors")
     ctx.analysed(gap)
@@ -386,8 +408,62 @@ def run(ctx) -> None:
                "finishedCheck inspects the component state outside comp_lock")
     ctx.floor("C01.R7-lock", len(state_reads), 2, "state inspections in finishedCheck")
 
+    _check_no_state_overwrite(ctx, ctl)
+
 
 # ---------------------------------------------------------------------------------------------------------
+
+def _check_no_state_overwrite(ctx, ctl) -> None:
+    """R9: the scheduling rules read the producers' final states; the only place that writes a final state without going through
+    finish() - Controller.initialise marking the stages a restart skips as FINISHED - must be bounded by the stage the run
+    STARTED from (an attribute set once, on the first initialise), never by the stage that is being initialised now."""
+    rule = "C01.R9-final-states-not-overwritten"
+    FINAL = ("FINISHED_STATE", "FAILED_STATE", "SHUTDOWN_STATE")
+    n_sites = 0
+    for q, fn in ctl.functions.items():
+        if not q.startswith("Controller."):
+            continue
+        for lp in [n for n in source.walk_own(fn) if isinstance(n, ast.For)]:
+            marks = [a for a in ast.walk(lp) if isinstance(a, ast.Assign) and any(
+                isinstance(t, ast.Attribute) and t.attr == "controllerState" for t in a.targets)
+                and (dotted(a.value) or "").split(".")[-1] in FINAL]
+            if not marks or not (isinstance(lp.iter, ast.Call) and call_name(lp.iter) == "range"):
+                continue
+            # only the outermost stage loop
+            if any(isinstance(o, ast.For) and o is not lp and any(lp is x for x in ast.walk(o)) and isinstance(o.iter, ast.Call)
+                   and call_name(o.iter) == "range" for o in source.walk_own(fn)):
+                continue
+            n_sites += 1
+            ctx.analysed(fn)
+            bound = lp.iter.args[-1]
+            # the bound is an attribute of self ...
+            is_attr = isinstance(bound, ast.Attribute) and isinstance(bound.value, ast.Name) and bound.value.id == "self"
+            ok = False
+            why = "the loop is bounded by %s" % short(bound, 40)
+            if is_attr:
+                # ... that is assigned only under "this is the first initialise" (currentStage is None)
+                writes = [a for f2 in ctl.functions.values() for a in source.walk_own(f2) if isinstance(a, ast.Assign) and any(
+                    isinstance(t, ast.Attribute) and t.attr == bound.attr and isinstance(t.value, ast.Name) and t.value.id == "self" for t in a.targets)]
+                guarded = []
+                for a in writes:
+                    f2 = next(f for f in ctl.functions.values() if any(a is x for x in source.walk_own(f)))
+                    if f2.name == "__init__":
+                        guarded.append(True)
+                        continue
+                    ifs = [p for p in source.ancestors(a) if isinstance(p, ast.If) and any(a is x for st_ in p.body for x in ast.walk(st_))]
+                    guarded.append(any(isinstance(c, ast.Compare) and isinstance(c.ops[0], ast.Is) and isinstance(c.comparators[0], ast.Constant)
+                                       and c.comparators[0].value is None and "currentStage" in source.src(c.left) for p in ifs for c in ast.walk(p.test)))
+                ok = bool(writes) and all(guarded)
+                why = "self.%s is not written only on the first initialise" % bound.attr if not ok else ""
+            ctx.ob(rule, marks[0], ok,
+                   "components are marked FINISHED without finish() only for the stages before the one the run started from (self.%s, set on the "
+                   "first initialise)" % bound.attr if ok else
+                   "%s marks components as finished for range(.., %s) - %s: every initialise of a later stage overwrites the final state of all "
+                   "components of the earlier stages, a producer that ended SHUTDOWN or FAILED becomes FINISHED and its consumers in the new stage "
+                   "are launched" % (q, short(bound, 40), why),
+                   construct="%s: direct final-state marking bounded by the starting stage" % q)
+    ctx.floor(rule, n_sites, 1, "loops that assign a final controllerState directly in the controller")
+
 
 def _classify_subject_return(e: ast.AST) -> str:
     """'all' / 'some' / '?' for a boolean expression about subjects being members of comp_staged_in."""
